@@ -68,6 +68,8 @@ func extraSpecs() []*PropertySpec {
 		{ID: "C18", Rules: []string{"OPTION-RANGE"}, Decided: "invalid option values that would crash or cripple the node later (a log level beyond Fatal, an election timeout below one millisecond) are refused with an error at construction"},
 		{ID: "C10", Rules: []string{"PARTIAL-RESET"}, Decided: "a partially received snapshot never survives a term or leader change, so chunks of two snapshots are never mixed in one file across it"},
 		{ID: "C11", Rules: []string{"PARTIAL-RESET"}, Decided: "a partially received snapshot never survives a term or leader change"},
+		{ID: "C15", Rules: []string{"PARTIAL-RESET"}, Decided: "a member that was receiving a snapshot when the leader changed starts the next transfer from an empty file, so it ends with the new leader's snapshot and not with a mixture it can never recover from"},
+		{ID: "C14", Rules: []string{"PARTIAL-RESET"}, Decided: "as C15, for the schedule in which the transfer was interrupted by a crash of the sender"},
 		{ID: "C10", Rules: []string{"SEND-LABEL"}, Decided: "a snapshot request is labelled with the metadata of the very file whose bytes it carries, not with the node's boundary"},
 		{ID: "C11", Rules: []string{"SEND-LABEL"}, Decided: "a snapshot request is labelled with the metadata of the very file whose bytes it carries"},
 		{ID: "C11", Rules: []string{"COMPACT-KEEP"}, Decided: "Compact keeps the boundary entry as placeholder plus the suffix, DiscardEntries leaves exactly the placeholder, LastIndex/LastTerm/NextIndex read the last element"},
